@@ -48,6 +48,10 @@ FAULTS = {
     "guard_wrong_side_of_or": "reject",   # principal has opt || principal.opt ...
     "guard_in_else": "reject",            # if principal has opt then .. else principal.opt ...
     "capability_after_not": "reject",     # !(principal has opt) && principal.opt ...
+    "if_test_capability_after": "reject",   # (if principal has opt then true else true) && principal.opt ...  (test capability
+                                            #  holds in the then branch only; it must not survive the conditional)
+    "if_branch_capability_after": "reject",  # (if c then principal has opt else true) && principal.opt ...  (then ∩ else)
+    "or_capability_after": "reject",      # (principal has opt || !(principal has opt)) && principal.opt ...  (left ∩ right)
     "guard_other_attr": "reject",         # principal has a && principal.b ...   (b optional, a != b)
     "guard_other_base": "reject",         # principal has a && resource.a ...
     "tag_without_hastag": "reject",       # e.getTag(k) with no hasTag
@@ -642,6 +646,7 @@ class ExprGen:
         """(boolean expr) or None when the schema offers no site for this fault"""
         r = self.r
         if name in ("unguarded_optional", "guard_wrong_side_of_or", "guard_in_else", "capability_after_not",
+                    "if_test_capability_after", "if_branch_capability_after", "or_capability_after",
                     "guard_other_attr", "guard_other_base", "tag_without_hastag", "tag_other_key"):
             want_tag = name.startswith("tag_")
             c = [p for p in self.paths if p[2] and (p[2][-1][0] == "binop") == want_tag]
@@ -661,6 +666,16 @@ class ExprGen:
                 b = ("if", g, r.choice([TRUE, FALSE]), use)
             elif name == "capability_after_not":
                 b = ("and", ("unop", "not", g), use)
+            elif name == "if_test_capability_after":
+                b = ("and", ("if", g, TRUE, r.choice([TRUE, ("unop", "not", g)])), use)
+            elif name == "if_branch_capability_after":
+                c0 = self.gen(BOOL, 1)
+                if c0 is None:
+                    return None
+                outer = outer + [x for x in c0[1] if x != g and x not in outer]
+                b = ("and", ("if", c0[0], g, r.choice([TRUE, ("unop", "not", g)])), use)
+            elif name == "or_capability_after":
+                b = ("and", ("or", g, r.choice([TRUE, ("unop", "not", g)])), use)
             elif name == "guard_other_attr":
                 # the guard tests another DECLARED attribute of the same base (an undeclared one would be typed
                 # False on a closed type and make the access dead code)
